@@ -285,11 +285,6 @@ def _mono_mul(a, b):
 
 class Sx:
     __slots__ = ('t', 'ctx', '_h')
-    # numpy-scalar look-alike attributes (results of 0-d array arithmetic are scalars in numpy)
-    shape = ()
-    ndim = 0
-    size = 1
-    dtype = object
 
     def __init__(self, terms, ctx):
         self.t = terms
